@@ -15,6 +15,7 @@ SHAPES = {
     "crate_path": (lambda cid: "crate::%s::Cfg" % cid, lambda n: 'Cfg { name: "%s", id: 7 }' % n, "deps.name"),
     "generic_inst": (lambda cid: "Gen<u8>", lambda n: 'Gen { name: "%s", t: 3u8 }' % n, "deps.name"),
     "generic_inst2": (lambda cid: "self::Gen<(u8, i8)>", lambda n: 'Gen { name: "%s", t: (3u8, 4i8) }' % n, "deps.name"),
+    "abs_path": (lambda cid: "::vrt::ExtCfg", lambda n: '::vrt::ExtCfg { name: "%s", id: 7 }' % n, "deps.name"),
     "tuple": (lambda cid: "(u8, Cfg)", lambda n: '(1u8, Cfg { name: "%s", id: 7 })' % n, "deps.1.name"),
     "array": (lambda cid: "[Cfg; 2]", lambda n: '[Cfg { name: "%s", id: 7 }, Cfg { name: "other", id: 8 }]' % n, "deps[0].name"),
 }
@@ -71,7 +72,27 @@ def build_case(cid, rng):
     depexpr = "&deps" if byval else "deps"
     body = m.body(fid, depexpr, name_expr=name_acc)
     vis = rng.choice(["", "pub ", "pub(crate) "])
-    L.append("%s%sfn subj%s(%s)%s%s %s" % (vis, "async " if m.is_async else "", g, ", ".join(ps), m.ret_text(), where, body))
+    fn_text = "%s%sfn subj%s(%s)%s%s %s" % (vis, "async " if m.is_async else "", g, ", ".join(ps), m.ret_text(), where, body)
+    # the fn may be stamped out by macro_rules!, with the name of the dependency parameter and / or its type supplied by the
+    # invocation (`$d:ident`: call-site hygiene; `$t:ty`: the type arrives wrapped in a None-delimited group)
+    wrap_mode = rng.choice(["none"] * 6 + ["ident", "ty", "both"])
+    if wrap_mode != "none" and "$" not in fn_text and shape in SHAPES:
+        import re as _re
+        matcher, args = [], []
+        if wrap_mode in ("ident", "both"):
+            fn_text = _re.sub(r"\bdeps\b", "$d", fn_text)
+            matcher.append("$d:ident")
+            args.append("deps")
+        if wrap_mode in ("ty", "both"):
+            fn_text = fn_text.replace(": " + dty, ": " + dty.replace(cty, "$t"), 1)
+            matcher.append("$t:ty")
+            args.append(cty)
+        inv = L.pop()
+        L.append("macro_rules! make_leaf {\n    (%s) => {\n        %s\n        %s\n    };\n}\nmake_leaf!(%s);" % (
+            ", ".join(matcher), inv, fn_text.replace("\n", "\n        "), ", ".join(args)))
+    else:
+        wrap_mode = "none"
+        L.append(fn_text)
     # hand-written adoption by a downstream App
     recv = "self" if byval else ("&%sself" % lt)
     call = "self.cfg.subj(%s)%s" % (", ".join(p.names[0] if p.form == "plain" else "__w%d" % i for i, p in enumerate(m.params)), ".await" if m.is_async else "")
@@ -108,7 +129,7 @@ def build_case(cid, rng):
         args = d1
     D.append("}")
     nt = shape != "ident" or m.is_async or m.ret == "borrow_self"
-    meta = {"shape": shape, "byval": byval, "static_lifetime": static_lt, "async": m.is_async, "ret": m.ret, "fn": fid, "args": args, "nontrivial": nt,
+    meta = {"macro_rules": wrap_mode, "shape": shape, "byval": byval, "static_lifetime": static_lt, "async": m.is_async, "ret": m.ret, "fn": fid, "args": args, "nontrivial": nt,
             "sig": "%s(%s)%s" % ("async " if m.is_async else "", ", ".join(ps), m.ret_text())}
     return Case(cid, "\n".join(L + D) + "\n", meta=meta)
 
@@ -178,6 +199,7 @@ def check_case(c, rep, pinned=None):
     if len(nested) != 1:
         rep.violation(c.id, "nested-expansions:%d" % len(nested), "the generated trait was entraited %d times" % len(nested), pinned=pinned)
     rep.bucket("shapes", m["shape"] + ("/&'static" if m.get("static_lifetime") else ""))
+    rep.bucket("stamped_by_macro_rules", m.get("macro_rules", "none"))
     rep.count(c.sig(), m["nontrivial"])
     rep.sample({"case": c.id, "shape": m["shape"], "sig": m["sig"], "facts": f, "on_impl_app": ph["on_impl_app"]}, limit=3)
 
@@ -197,7 +219,7 @@ pub fn run() {}
 
 def run(tier, seed):
     rep = core.Report(PROP, tier, seed)
-    rep.rule = ("random concrete-deps fns over type shapes {ident, self:: path, crate:: path, generic instantiation, tuple, array} x "
+    rep.rule = ("random concrete-deps fns over type shapes {ident, self:: path, crate:: path, absolute ::krate:: path, generic instantiation, tuple, array}; a quarter of the fns stamped out by macro_rules! with the deps name / type supplied by the invocation x "
                 "by-ref (elided / explicit lifetime) and by-value on Copy types x sync/async x owned/borrowed returns x 0-4 further args; "
                 "calls on C, Impl<C>, Impl<App> (hand-written adoption forwarding to a field) compared with the fn on &C. "
                 "non-trivial = shape other than a bare ident, async, or a return borrowed from the dependency")
